@@ -33,7 +33,11 @@ func (iph *IPHashStrategy) NextBackend(r *http.Request) *Backend {
 	// Get healthy backends
 	healthyBackends := make([]*Backend, 0)
 	for _, b := range iph.backends {
-		if b.IsHealthy {
+		// the flag is written under the backend's mutex
+		b.Mutex.RLock()
+		healthy := b.IsHealthy
+		b.Mutex.RUnlock()
+		if healthy {
 			healthyBackends = append(healthyBackends, b)
 		}
 	}
